@@ -250,6 +250,20 @@ impl Agg {
 }
 
 /// fraction of each batch (from index 0) whose digest is cross-checked in a second process
+/// Runs are executed in chunks of consecutive indices, every chunk on a freshly spawned thread, so that
+/// whatever hidden thread-local state the code under test keeps starts empty at a chunk boundary: the history
+/// of run i is exactly the runs chunk_start(i)..i of its batch — independent of worker count and scheduling —
+/// and can be replayed. (The chunk size depends on the batch size only.)
+pub fn chunk_len(count: u64) -> u64 {
+    if count >= 4096 {
+        32
+    } else if count >= 256 {
+        8
+    } else {
+        1
+    }
+}
+
 fn prefix_len(count: u64, tier: Tier) -> u64 {
     match tier {
         Tier::Quick => (count / 8).max(count.min(50)),
@@ -288,7 +302,7 @@ fn run_batches<P: Property>(
         };
         let pref = prefix_len(b.count, tier);
         let next = AtomicU64::new(0);
-        let chunk: u64 = (limit / (nworkers as u64 * 16)).clamp(1, 256);
+        let chunk: u64 = chunk_len(b.count);
         std::thread::scope(|s| {
             for w in 0..nworkers {
                 let builder = std::thread::Builder::new().stack_size(64 << 20);
@@ -306,6 +320,10 @@ fn run_batches<P: Property>(
                                 break;
                             }
                             let end = (start + chunk).min(limit);
+                            let agg_ref = &mut agg;
+                            std::thread::scope(|cs_scope| {
+                            let h = std::thread::Builder::new().stack_size(32 << 20).spawn_scoped(cs_scope, move || {
+                            let agg = agg_ref;
                             for idx in start..end {
                                 let cs = case_seed(seed, p.id(), b.name, idx);
                                 let case = p.gen(b.name, idx, cs);
@@ -361,6 +379,9 @@ fn run_batches<P: Property>(
                                     agg.rehop.push((bno, idx, rep.log_digest));
                                 }
                             }
+                            }).expect("spawn chunk thread");
+                            let _ = h.join();
+                            });
                         }
                         super::crash::clear_current(w);
                         total.lock().unwrap().merge(agg);
@@ -467,6 +488,31 @@ pub fn replay_case<P: Property>(p: &P, path: &Path) -> i32 {
         }
     };
     let flaky = v.get("flaky").and_then(|x| x.as_bool()).unwrap_or(false);
+    let history: Vec<P::Case> = match v.get("history") {
+        Some(h) if !h.is_null() => match serde_json::from_value(h.clone()) {
+            Ok(x) => x,
+            Err(e) => {
+                eprintln!("harness error: bad history in replay file: {}", e);
+                return 2;
+            }
+        },
+        _ => vec![],
+    };
+    if !history.is_empty() {
+        println!("  (history-dependent violation: {} preceding run(s) are replayed on the same fresh thread first)", history.len());
+        let rep = run_with_history(p, &history, &case);
+        return match &rep.violation {
+            Some(vi) => {
+                println!("REPLAY property={} class={} cause={} digest={:016x}", p.id(), vi.class, vi.cause, rep.log_digest);
+                println!("  detail: {}", vi.detail);
+                1
+            }
+            None => {
+                println!("REPLAY property={} class=none digest={:016x}", p.id(), rep.log_digest);
+                0
+            }
+        };
+    }
     let mut rep = p.run(&case);
     let mut tries = 1;
     while flaky && rep.violation.is_none() && tries < 40 {
@@ -509,6 +555,24 @@ pub fn replay_case<P: Property>(p: &P, path: &Path) -> i32 {
             0
         }
     }
+}
+
+/// Execute `history` and then `case` on one freshly spawned thread (the situation of a run inside its chunk);
+/// the report is the last case's.
+fn run_with_history<P: Property>(p: &P, history: &[P::Case], case: &P::Case) -> Report {
+    std::thread::scope(|s| {
+        std::thread::Builder::new()
+            .stack_size(32 << 20)
+            .spawn_scoped(s, || {
+                for h in history {
+                    let _ = p.run(h);
+                }
+                p.run(case)
+            })
+            .expect("spawn history thread")
+            .join()
+            .unwrap_or_default()
+    })
 }
 
 /// run a case; for a probabilistic class return a failing report only if it fails at least twice in four tries
@@ -926,10 +990,108 @@ pub fn check<P: Property>(p: &P, tier: Tier) -> i32 {
             tries += 1;
         }
         if rep0.violation.as_ref().map(|v| (&v.class, flaky || &v.cause == cause)) != Some((class, true)) {
-            harness_error = Some(format!(
-                "violation {}/{} of run {}#{} did not reproduce in-process: {:?}",
-                class, cause, bname, idx, rep0.violation
-            ));
+            // not reproducible in isolation: the verdict depends on what ran before on the same thread
+            // (hidden state in the code under test). Replay the run together with its chunk history.
+            let b_count = p.batches(tier).iter().find(|b| b.name == bname.as_str()).map(|b| b.count).unwrap_or(1);
+            let ch = chunk_len(b_count);
+            let cstart = (*idx / ch) * ch;
+            let mut hist: Vec<P::Case> = (cstart..*idx).map(|i| p.gen(bname, i, case_seed(seed, p.id(), bname, i))).collect();
+            let same = |r: &Report| r.violation.as_ref().map(|v| &v.class == class && (flaky || &v.cause == cause)).unwrap_or(false);
+            let tries = if flaky { 6 } else { 1 };
+            let reproduces = |h: &[P::Case]| (0..tries).any(|_| same(&run_with_history(p, h, &case)));
+            if hist.is_empty() || !reproduces(&hist) {
+                harness_error = Some(format!(
+                    "violation {}/{} of run {}#{} reproduces neither in isolation nor with its chunk history ({} runs): {:?}",
+                    class, cause, bname, idx, hist.len(), rep0.violation
+                ));
+                continue;
+            }
+            // minimise the history: drop halves, then single runs, while the violation persists
+            let mut attempts = 0u64;
+            let mut changed = true;
+            while changed && attempts < 200 {
+                changed = false;
+                let n = hist.len();
+                if n > 1 {
+                    for (a, b2) in [(0, n / 2), (n / 2, n)] {
+                        let mut cand = hist.clone();
+                        cand.drain(a..b2);
+                        attempts += 1;
+                        if !cand.is_empty() && reproduces(&cand) {
+                            hist = cand;
+                            changed = true;
+                            break;
+                        }
+                    }
+                    if changed {
+                        continue;
+                    }
+                }
+                for i in 0..hist.len() {
+                    if hist.len() == 1 {
+                        break;
+                    }
+                    let mut cand = hist.clone();
+                    cand.remove(i);
+                    attempts += 1;
+                    if reproduces(&cand) {
+                        hist = cand;
+                        changed = true;
+                        break;
+                    }
+                }
+            }
+            let final_rep = {
+                let mut r = run_with_history(p, &hist, &case);
+                let mut t = 0;
+                while !same(&r) && t < 40 {
+                    r = run_with_history(p, &hist, &case);
+                    t += 1;
+                }
+                r
+            };
+            let dir = verif_root().join("replays");
+            let _ = std::fs::create_dir_all(&dir);
+            let path = dir.join(format!("{}-{}-{}-{}-{}-history.json", p.id(), sanitize(class), sanitize(cause), seed, idx));
+            let file = json!({
+                "property": p.id(), "class": class, "cause": cause, "flaky": flaky,
+                "detail": final_rep.violation.as_ref().map(|v| v.detail.clone()).unwrap_or_default(),
+                "first_detail": v0.detail, "seed": seed, "batch": bname, "index": idx,
+                "runs_with_this_violation": list.len(),
+                "history_dependent": true,
+                "history_note": "the verdict of `case` depends on hidden state left behind by the `history` runs executed before it on the same thread; replay executes history then case on one fresh thread",
+                "history_shrink_attempts": attempts,
+                "history": serde_json::to_value(&hist).unwrap(),
+                "case": serde_json::to_value(&case).unwrap(),
+                "how_to_replay": format!("cd /verif && ./check replay {} <this file>", p.id()),
+            });
+            if std::fs::write(&path, serde_json::to_string_pretty(&file).unwrap()).is_err() {
+                harness_error = Some("cannot write replay file".into());
+                continue;
+            }
+            let exe = std::env::current_exe().expect("current_exe");
+            let mut ok = false;
+            for _ in 0..(if flaky { 5 } else { 1 }) {
+                if let Ok(o) = std::process::Command::new(&exe).args(["replay", p.id(), path.to_str().unwrap()]).output() {
+                    let so = String::from_utf8_lossy(&o.stdout).to_string();
+                    if so.lines().any(|l| l.starts_with("REPLAY") && l.contains(&format!("class={} ", class)) && (flaky || l.contains(&format!("cause={} ", cause)))) {
+                        ok = true;
+                        break;
+                    }
+                }
+            }
+            if !ok {
+                harness_error = Some(format!("unstable replay: {} (history-dependent) did not reproduce {}/{} in a fresh process", path.display(), class, cause));
+                continue;
+            }
+            println!(
+                "  violation class={} cause={} runs={} first={}#{} (history-dependent: needs {} preceding run(s) on the same thread) detail: {}",
+                class, cause, list.len(), bname, idx, hist.len(),
+                final_rep.violation.as_ref().map(|v| v.detail.as_str()).unwrap_or("")
+            );
+            println!("VIOLATION property={} replay={}", p.id(), path.display());
+            violation_records.push(json!({"class": class, "cause": cause, "runs": list.len(), "replay": path.to_str(), "history_dependent": true}));
+            exit = 1;
             continue;
         }
         let lit = p.literalize(&case, &rep0);
